@@ -469,15 +469,23 @@ def afterObs (st : SrvSt) (elec : Option U128) (master : Option Nat) (sess : Lis
         else st.monfail mon "installed entries changed although the request had to be rejected (or was a disconnect)"
       let st := if permEq st.prevPend st.rs.implPend then st
         else st.monfail mon "held operations changed although the request had to be rejected (or was a disconnect)"
-      if elec = st.implElec then st
-      else st.monfail mon s!"election id changed from {showElec st.implElec} to {showElec elec} although the request had to be rejected (or was a disconnect)") st
+      let st := if elec = st.implElec then st
+        else st.monfail mon s!"election id changed from {showElec st.implElec} to {showElec elec} although the request had to be rejected (or was a disconnect)"
+      if master = st.implMaster then st
+      else st.monfail mon s!"the primary changed from session {st.implMaster} to {master} although the request had to be rejected (or was a disconnect)") st
   let st := match st.flushedNIs with
     | none => st
     | some nis =>
       let st := if st.rs.implEnts.all (fun e => !(nis.contains e.1.1)) then st
         else st.monfail "c08" "a flushed network instance still has entries"
       let keep : Map EKey Payload := st.prevEnts.filter (fun (e : EKey × Payload) => !(nis.contains e.1.1))
-      if mapEq keep st.rs.implEnts then st else st.monfail "c08" "a flush changed entries of a network instance it did not name"
+      let st := if mapEq keep st.rs.implEnts then st else st.monfail "c08" "a flush changed entries of a network instance it did not name"
+      -- C06 (and C02): a Flush answers no operation; one that was held before it is held after it —
+      -- gone from the pending queue it can never be answered
+      match st.prevPend.find? (fun id => !st.rs.implPend.contains id) with
+      | some id => (st.monfail "c06" s!"unanswered: operation {id} was held, a Flush removed it from the pending queue, and it never received a result").monfail "c02"
+          s!"held operation {id} vanished at a flush: it was never answered and can no longer become resolvable"
+      | none => st
   -- C05 monitor on the snapshot: the reported id is the running maximum, the primary its last announcer
   let st := if elec = st.annMax then st
     else st.monfail "c05" s!"server election id is {showElec elec} but the maximum announced is {showElec st.annMax}"
